@@ -29,11 +29,26 @@ pub fn install_panic_hook() {
             .map(|l| format!("{}:{}", l.file(), l.line()))
             .unwrap_or_else(|| "<unknown>".into());
         // also to stderr so that the driver can attribute aborts that follow a panic
-        eprintln!("PANIC at {loc}: {msg}");
+        if QUIET.load(std::sync::atomic::Ordering::SeqCst) == 0 {
+            eprintln!("PANIC at {loc}: {msg}");
+        }
         if let Ok(mut g) = LAST_PANIC.lock() {
             *g = Some((loc, msg));
         }
     }));
+}
+
+pub static QUIET: std::sync::atomic::AtomicUsize = std::sync::atomic::AtomicUsize::new(0);
+pub struct QuietGuard;
+impl Drop for QuietGuard {
+    fn drop(&mut self) {
+        QUIET.fetch_sub(1, std::sync::atomic::Ordering::SeqCst);
+    }
+}
+/// while the guard lives, expected panics (calls documented to panic, run under catch_unwind) are not echoed
+pub fn quiet_panics() -> QuietGuard {
+    QUIET.fetch_add(1, std::sync::atomic::Ordering::SeqCst);
+    QuietGuard
 }
 
 /// panics that stem from the sandbox running out of threads / address space
